@@ -6,6 +6,7 @@ unknown / timeout / error are never turned into a violation.
 """
 from __future__ import annotations
 
+import hashlib
 import json
 import os
 import re
@@ -57,13 +58,13 @@ def _solve_one(ob, timeout_ms, seed):
         qa = _aq(gh, ob.goal)
         if qa is not None:
             s = z3.Solver()
-            s.set("timeout", max(1000, int(timeout_ms * 0.08)))
+            s.set("timeout", max(1000, int(timeout_ms * 0.05)))
             s.add(*qa)
             if s.check() == z3.unsat:
                 return {"verdict": "proved", "time": time.time() - t_start, "backend": "z3-euf (quantifier-free hypotheses, strings abstracted)"}
         q0 = _aq(ob.hyps, ob.goal)
         if q0 is not None:
-            for opts_, share_ in (({"smt.mbqi": False}, 0.12), ({"smt.mbqi": False, "smt.qi.eager_threshold": 100.0}, 0.15)):
+            for opts_, share_ in (({"smt.mbqi": False}, 0.25), ({"smt.mbqi": False, "smt.qi.eager_threshold": 100.0}, 0.15)):
                 s = z3.Solver()
                 s.set("timeout", max(1000, int(timeout_ms * share_)))
                 for k_, v_ in opts_.items():
@@ -82,11 +83,11 @@ def _solve_one(ob, timeout_ms, seed):
                 return {"verdict": "proved", "time": time.time() - t_start, "backend": f"z3 (quantifier-free hypotheses, cone depth {depth})"}
         if _has_strings(rel + [ob.goal]):
             # z3's sequence solver is unstable on word equations with optional pieces; cvc5 decides them (child process under a hard kill)
-            r5 = _cvc5(ob, max(1.0, timeout_ms * 0.2 / 1000.0), hyps=rel, only_unsat=True)
+            r5 = _cvc5(ob, max(1.0, timeout_ms * 0.15 / 1000.0), hyps=rel, only_unsat=True)
             if r5 is not None:
                 r5["time"] = time.time() - t_start
                 return r5
-        portfolio = PORTFOLIO[2:]
+        portfolio = [(False, {}, 0.1), (False, {"smt.mbqi": False}, 0.1)]
     if ground:
         # cone of influence: hypotheses that (transitively) share a constant with the goal; fewer hypotheses can only
         # make proving harder, never unsound - a `sat` answer of the reduced query is ignored
@@ -103,6 +104,9 @@ def _solve_one(ob, timeout_ms, seed):
     if ground:
         # ground query (typically regular-language membership): the native string solver first, with most of the budget
         portfolio = [(False, {}, 0.45), (True, {"smt.mbqi": False}, 0.05), ("cvc5", {}, 0.5)]
+        if ob.kind == "lemma" and ob.note.startswith("consequence of the stated contract"):
+            # model lemmas are word equations with optional pieces: z3's sequence solver runs into its time-out on them, cvc5 decides them at once
+            portfolio = [("cvc5", {}, 0.5), (False, {}, 0.45)]
     for use_abs, opts, share in portfolio:
         if use_abs == "cvc5":
             r5 = _cvc5(ob, max(1.0, timeout_ms * share / 1000.0))
@@ -352,10 +356,90 @@ def model_value(m, v):
     return str(v)
 
 
-def discharge(obligations, timeout_s=10.0, seed=0, progress=None):
+CACHE_DIR = os.path.join(os.path.dirname(os.path.dirname(os.path.abspath(__file__))), ".cache", "unsat")
+USE_CACHE = [os.environ.get("VERIF_NOCACHE", "") == ""]
+_key_memo = {}
+
+
+def _term_digest(x):
+    """sha256 of the term's s-expression plus the sorts of its uninterpreted symbols (memoised per term; the terms are kept alive by their obligations)."""
+    k = x.get_id()
+    hit = _key_memo.get(k)
+    if hit is not None and hit[0].eq(x):
+        return hit[1]
+    h = hashlib.sha256(x.sexpr().encode())
+    decls = set()
+    stack, seen = [x], set()
+    while stack:
+        y = stack.pop()
+        if y.get_id() in seen:
+            continue
+        seen.add(y.get_id())
+        if z3.is_app(y) and y.decl().kind() in (z3.Z3_OP_UNINTERPRETED, z3.Z3_OP_RECURSIVE):
+            d = y.decl()
+            decls.add(f"{d.name()}:{[str(d.domain(i)) for i in range(d.arity())]}->{d.range()}")
+            if d.kind() == z3.Z3_OP_RECURSIVE:
+                decls.add("<recursive definition>")  # its meaning lives outside the term: see query_key
+        if z3.is_quantifier(y):
+            stack.append(y.body())
+        else:
+            stack.extend(y.children())
+    h.update("\n".join(sorted(decls)).encode())
+    dg = h.digest()
+    _key_memo[k] = (x, dg, "<recursive definition>" in decls)
+    return dg
+
+
+def query_key(ob):
+    """Content hash of the whole query (every hypothesis in order, the goal, the sorts of all symbols): two obligations with the same key are the same
+    formula, so an `unsat` answer for one is an answer for the other."""
+    h = hashlib.sha256()
+    rec = False
+    for x in list(ob.hyps) + [ob.goal]:
+        if x is ob.goal:
+            h.update(b"|-")
+        h.update(_term_digest(x))
+        rec = rec or _key_memo[x.get_id()][2]
+    if rec:
+        # a recursive specification function is referred to by NAME: the key then also carries the digest of the contract files and of the generator
+        from . import driver
+
+        h.update(getattr(driver, "SPEC_DIGEST", b""))
+    return h.hexdigest()
+
+
+def discharge(obligations, timeout_s=10.0, seed=0, progress=None, cache=True):
     """Returns list of result dicts aligned with `obligations`."""
     results = [None] * len(obligations)
-    pending = list(range(len(obligations)))
+    keys = [None] * len(obligations)
+    pending = []
+    for idx, ob in enumerate(obligations):
+        if cache and USE_CACHE[0] and ob.expect == "unsat":
+            try:
+                keys[idx] = query_key(ob)
+            except Exception:  # noqa: BLE001
+                keys[idx] = None
+            if keys[idx] and os.path.exists(os.path.join(CACHE_DIR, keys[idx][:2], keys[idx])):
+                results[idx] = {"verdict": "proved", "time": 0.0, "backend": "cache (the identical query was discharged by an earlier run)"}
+                continue
+        pending.append(idx)
+    res_live = _discharge_live(obligations, pending, timeout_s, seed, progress)
+    for idx in pending:
+        results[idx] = res_live[idx]
+        if keys[idx] and results[idx].get("verdict") == "proved":
+            d = os.path.join(CACHE_DIR, keys[idx][:2])
+            try:
+                os.makedirs(d, exist_ok=True)
+                with open(os.path.join(d, keys[idx]), "w") as f:
+                    f.write(results[idx].get("backend", ""))
+            except OSError:
+                pass
+    return results
+
+
+def _discharge_live(obligations, pending, timeout_s, seed, progress):
+    results = [None] * len(obligations)
+    pending = list(pending)
     running = {}  # pid -> (idx, fd, deadline, t0)
     hard = timeout_s + 5.0
     while pending or running:
